@@ -56,6 +56,12 @@ AcceptableWork(rec) ==
     /\ rec.cpu_ms <= CpuMsPerStep * StepBound(rec.len, rec.siglen) + CpuSlackMs
     /\ rec.mem_kb <= MemKbPerStep * StepBound(rec.len, rec.siglen) + MemSlackKb
 
+(* work grows with the length: a well-formed message 8 times as long as another of the same shape takes at most 3 times
+   the proportional CPU time (plus 300 ms for the noise of short measurements); a quadratic decoder takes 8 times it *)
+AcceptableScaling(rec) ==
+    /\ rec.outcome = "value"
+    /\ rec.big_ms * rec.small_len <= 3 * (rec.small_ms + 100) * rec.big_len
+
 (* "an exception costs the peer only its own connection": decoding is a function of the bytes alone.  A
    recorded pair [before, after] = what a valid message decoded to before and after a run of hostile inputs
    (on other connections of the same process) is acceptable iff nothing changed. *)
